@@ -97,6 +97,13 @@ Definition open_tok (b : bkind) : token_type :=
 Definition close_tok (b : bkind) : token_type :=
   match b with BRound => TT_EndGroup | BCurly => TT_EndExpression end.
 
+(* the expression separator `;`: the loosest binary operator, but never directly inside
+   round brackets (there the parser treats it as whitespace): the operand of a round
+   bracket is built under a limit just below the separator's rank *)
+Definition is_sep_def (d : definition) : bool :=
+  match d with D_ExpressionSeparator => true | _ => false end.
+Definition ROUND_LIMIT : N := 985.
+
 Inductive tok_kind : Type :=
   KValue | KBinary | KPrefix | KSuffix | KOpen (b : bkind) | KClose (b : bkind) | KSpace | KOther.
 
@@ -140,7 +147,7 @@ Definition ref_kind (t : token_type) : tok_kind :=
   | TT_Whitespace => KSpace
   | TT_Subexpression => KOther
   | TT_ExpressionTerminator => KOther
-  | TT_ExpressionSeparator => KOther
+  | TT_ExpressionSeparator => KBinary
   | TT_Annotation => KOther
   | TT_LineAnnotation => KOther
   | TT_JumpIfFalse => KBinary
